@@ -94,7 +94,7 @@ func genSnap(r *Rng, tier string, idx int, prop string) *Plan {
 			p.Ops = append(p.Ops, Op{C: r.Intn(2), Args: []string{"FLUSHALL"}})
 		}
 		if prop == "C10" && r.Chance(0.6) {
-			mode := Pick(r, []string{"kill", "kill", "power", "power", "eio", "enospc"})
+			mode := Pick(r, []string{"kill", "kill", "power", "power", "eio", "enospc", "oskill", "oskill"})
 			p.Ops = append(p.Ops, Op{Kind: "crash", N: int64(r.Intn(11)), S: mode})
 		}
 		p.Ops = append(p.Ops, Op{Kind: "save"})
@@ -573,7 +573,7 @@ func (a *snapRun) save(arm *Op, rest []Op) {
 		a.faultLog = append(a.faultLog, a.disk.Mode+"@"+a.disk.FiredAt)
 		a.disk0site = a.disk.FiredAt
 	}
-	if a.disk.Fired && (a.disk.Mode == "kill" || a.disk.Mode == "power") {
+	if a.disk.Fired && (a.disk.Mode == "kill" || a.disk.Mode == "power" || a.disk.Mode == "oskill") {
 		a.inflight = &rec
 		a.s.KillInstance(a.inst.ID)
 		a.checkRestore(a.nextImage(a.disk.Image), a.disk.Mode+"@"+a.disk.FiredAt)
